@@ -25,7 +25,9 @@ CLAIM = dict(
     note="Trusted: the Python model / NumPy, the sanitizer build, the harness' own odometer. Not covered: strides() of column-major "
          "arrays is by design the row-major stride vector (the baseline test asserts it) so layout is decided on the buffer, not on "
          "strides(); feature combinations that do not compile on the unchanged tree are listed in vf/c20_allow.py and reported as "
-         "'unsupported' in the evidence; shapes with a zero extent and dim 0 are outside the quantifier.",
+         "'unsupported' in the evidence; shapes with a zero extent and dim 0 are outside the quantifier; for negative-step slices the cell a view "
+         "index addresses is slicing semantics (property C05), so by default only 'exactly one distinct cell per view index' is decided there "
+         "(VERIF_C20_STRICT_NEG=1 also compares with NumPy; that holds on the tree with the C05 slicing fix).",
     ref="DESIGN.md 4/C20")
 
 
@@ -466,7 +468,7 @@ def run_histories(ctx):
     if not tgs:
         return 0
     bins = build_or_fail([t for t, _ in tgs])
-    nrand = 300 if quick else 6000
+    nrand = 300 if quick else 20000
     stats = dict(ops={}, resize_refused=0, resize_accepted=0, resize_unsupported_form=0, refused_classes=set(), states=set(),
                  cast_kind=set(), cast_kind_unsupported=set(), cast_dtype=set(), cast_dtype_unsupported=set())
     dec = Decider(ctx, stats)
